@@ -701,7 +701,9 @@ func init() {
 				}
 			}
 		}
-		return writeJSON(o.out, "stats.json", map[string]any{"receipts": n, "verify_calls": nverify, "alteration_histogram": altHist, "receipts_issued_by_a_server": srvRcpts,
+		xd, xruns := c10Extra(o.seed)
+		direct = append(direct, xd...)
+		return writeJSON(o.out, "stats.json", map[string]any{"receipts": n, "verify_calls": nverify, "alteration_histogram": altHist, "receipts_issued_by_a_server": srvRcpts, "handwritten_method_and_large_result_runs": xruns,
 			"distinct_shapes": len(shapeHist), "rebinds": nrebind, "concurrently_issued": nconc, "direct_violations": direct, "samples": samples, "byte_cases": len(cases)})
 	}
 }
